@@ -14,7 +14,14 @@ LOG=/tmp/confirm_$ID.log; : > $LOG
 if [ -d "$OUT/demo" ]; then cp -r "$OUT/demo/." $WT/; fi
 echo "== HEAD: demo" >> $LOG
 ( eval "$DEMO_CMD" ) >> $LOG 2>&1; HEAD_DEMO=$?
-git apply "$OUT/patch.diff" || { echo "patch does not apply"; exit 2; }
+if ! git apply "$OUT/patch.diff" 2>/dev/null; then
+  # written against an older HEAD: three-way merge, and keep the result as the patch
+  git apply -3 "$OUT/patch.diff" >/dev/null 2>&1
+  if [ -n "$(git diff --name-only --diff-filter=U)" ] || git diff HEAD | grep -q '^+<<<<<<<'; then echo "patch does not apply (conflict)"; git reset -q --hard HEAD; exit 2; fi
+  git reset -q; git diff HEAD -- zvt zvt_builder zvt_derive zvt_feig_terminal ':!*/tests/*' > "$OUT/patch.rebased.diff"
+  [ -s "$OUT/patch.rebased.diff" ] || { echo "patch does not apply"; git reset -q --hard HEAD; exit 2; }
+  cp "$OUT/patch.rebased.diff" "$OUT/patch.diff"; echo "(patch rebased onto $(git rev-parse --short HEAD))"
+fi
 echo "== PATCH: demo" >> $LOG
 ( eval "$DEMO_CMD" ) >> $LOG 2>&1; PATCH_DEMO=$?
 # original suite without the demo files
@@ -25,7 +32,9 @@ NPASS=$(grep -E "^test result: ok" $LOG | tail -20 | awk '{s+=$4} END {print s}'
 git checkout -q -- . ; git clean -fdq -e target
 echo "$ID: demo@HEAD exit=$HEAD_DEMO (want 0), demo@patch exit=$PATCH_DEMO (want !=0), original tests@patch exit=$ORIG (want 0)"
 if [ $HEAD_DEMO -eq 0 ] && [ $PATCH_DEMO -ne 0 ] && [ $ORIG -eq 0 ]; then
-  mkdir -p /verif/seeded/$ID; cp "$OUT/patch.diff" /verif/seeded/$ID/; rm -rf /verif/seeded/$ID/demo; [ -d "$OUT/demo" ] && cp -r "$OUT/demo" /verif/seeded/$ID/demo
+  if [ "$(realpath "$OUT")" != "$(realpath -m /verif/seeded/$ID)" ]; then
+    mkdir -p /verif/seeded/$ID; cp "$OUT/patch.diff" /verif/seeded/$ID/; rm -rf /verif/seeded/$ID/demo; [ -d "$OUT/demo" ] && cp -r "$OUT/demo" /verif/seeded/$ID/demo
+  fi
   [ -f "$OUT/README.md" ] && cp "$OUT/README.md" /verif/seeded/$ID/README.md
   echo "CONFIRMED -> /verif/seeded/$ID"
 else
